@@ -219,7 +219,7 @@ def run(rep, ctx):
             spec = TABLE.get(m)
             args = call_args(c)
             if m in OBJ_CALLBACKS:
-                a = strip(args[OBJ_CALLBACKS[m]])
+                a = strip(_expand(g, args[OBJ_CALLBACKS[m]], 0, True))        # a naming local is looked through
                 shape = a["k"] == "CXXMemberCallExpr" and a.get("callee", "").endswith("::resulting_obj_index")
                 key = "%s|%s|resulting-index" % (short_fn(g), m)
                 if (key, c.get("l")) not in seen:
